@@ -85,9 +85,51 @@ func buildFile(path string) string {
 	return sb.String()
 }
 
+// anchoring space (after seed C09_5): values and patterns with regexp metacharacters at their ends, so that a
+// condition that is not anchored on both sides (or anchored by a textual shortcut) selects a different set of rules
+var anchorMode bool
+
+func buildAnchorFile() string {
+	var sb strings.Builder
+	sb.WriteString("groups:\n- name: g\n  rules:\n")
+	for _, v := range []string{"cost$extra", "cost$", "xcost$", "cost", "^cost"} {
+		fmt.Fprintf(&sb, "  - alert: %s\n    expr: up == 0\n    labels:\n      unit: %s\n    annotations:\n      summary: %s\n", v, v, v)
+	}
+	return sb.String()
+}
+
+func setupAnchoring(t string) {
+	tier = t
+	anchorMode = true
+	alphabet = nil
+	for _, p := range []string{`rules/a\$`, `rules/a\$.*`, `^rules/a`, `.*\$`, `rules/a\$b\.yml`, `rules/a.b\.yml$`} {
+		alphabet = append(alphabet, cond{kind: "path", a: p})
+	}
+	pats := []string{`cost\$`, `cost\$.*`, `^cost\$$`, `^cost`, `cost$`, `.*cost\$`, `(cost\$|zzz)`, `cost\$$`, `^cost\$`, `[a-z]+\$`, `\^cost`, `cost\$|cost`}
+	for _, p := range pats {
+		alphabet = append(alphabet, cond{kind: "name", a: p})
+	}
+	for _, p := range pats {
+		alphabet = append(alphabet, cond{kind: "label", a: "unit", b: p})
+	}
+	for _, p := range pats {
+		alphabet = append(alphabet, cond{kind: "annotation", a: "summary", b: p})
+	}
+	alphabet = append(alphabet, cond{kind: "label", a: `uni`, b: ".*"}, cond{kind: "label", a: `^unit`, b: ".*"}, cond{kind: "label", a: `unit$`, b: `.*\$`})
+	setup(t)
+}
+
 func setup(string) {
-	for _, path := range []string{"rules/a.yml", "other/b.yml"} {
-		entries, crash := pipeline.Parse(path, []byte(buildFile(path)), true, parser.PrometheusSchema, model.UTF8Validation)
+	paths := []string{"rules/a.yml", "other/b.yml"}
+	if anchorMode {
+		paths = []string{"rules/a$b.yml", "rules/a$", "xrules/a$b.yml"}
+	}
+	for _, path := range paths {
+		text := buildFile(path)
+		if anchorMode {
+			text = buildAnchorFile()
+		}
+		entries, crash := pipeline.Parse(path, []byte(text), true, parser.PrometheusSchema, model.UTF8Validation)
 		if crash != nil {
 			panic(crash.Value)
 		}
@@ -519,11 +561,12 @@ var tier string
 func main() {
 	explore.Main(&explore.Config{
 		Property: "C09", Level: "exploration",
-		Rule:        "rule{} blocks of shape {none, m, i, mm, mi, ii} whose sub-blocks are conjunctions of <=c conditions (quick: c=2 for single sub-blocks, 1 in pairs; thorough: 3 for single sub-blocks, on the larger rule universe; both complete) over a 36-condition alphabet covering all nine kinds (anchoring probes, group-level labels, 7 duration operators, 3 commands, 7 state lists), loaded through the real config.Load, applied through GetChecksForEntry to a rule universe (80 rules quick / 276 thorough: kinds x names x group-level/rule-level/overriding labels x annotations x for x keep_firing_for x 2 paths) x 4 change states x 3 commands, compared with a reference evaluator of the documented meaning. distinct = distinct config text; space two-blocks: two unconditional rule{} blocks carrying the same kind of check with different parameters (10 kinds x 2 orders): both checks must be selected",
+		Rule:        "space anchoring: the same block shapes over 45 path/name/label/annotation conditions whose patterns end or start in escaped or bare regexp metacharacters (cost\\$, ^cost, cost$, cost\\$|cost, ...) applied to rules, labels, annotations and paths such as cost$extra, cost$, xcost$, ^cost, rules/a$b.yml: a condition means the fully anchored regexp; space blocks: rule{} blocks of shape {none, m, i, mm, mi, ii} whose sub-blocks are conjunctions of <=c conditions (quick: c=2 for single sub-blocks, 1 in pairs; thorough: 3 for single sub-blocks, on the larger rule universe; both complete) over a 36-condition alphabet covering all nine kinds (anchoring probes, group-level labels, 7 duration operators, 3 commands, 7 state lists), loaded through the real config.Load, applied through GetChecksForEntry to a rule universe (80 rules quick / 276 thorough: kinds x names x group-level/rule-level/overriding labels x annotations x for x keep_firing_for x 2 paths) x 4 change states x 3 commands, compared with a reference evaluator of the documented meaning. distinct = distinct config text; space two-blocks: two unconditional rule{} blocks carrying the same kind of check with different parameters (10 kinds x 2 orders): both checks must be selected",
 		Assumptions: []string{"a block 'is applied' when its marker check is in GetChecksForEntry's result", "removed rules are outside (no configurable check runs on them)"},
 		Spaces: []*explore.Space{
 			{Name: "blocks", Body: body, Setup: func(t string) { tier = t; setup(t) }, Bound: func(string) int { return -1 }},
 			{Name: "two-blocks", Body: twoBlocks, Setup: func(t string) { tier = t; setup(t) }, Bound: func(string) int { return -1 }},
+			{Name: "anchoring", Body: body, Setup: setupAnchoring, Bound: func(string) int { return -1 }},
 		},
 		BudgetS: func(t string) int {
 			if t == "thorough" {
